@@ -106,6 +106,39 @@ pub fn check_diagram(ctx: &mut Ctx, rng: &mut Rng, pd: &PD, origin: &str, class:
             Err(p) => fail!("resolution-with-history-panic", format!("resolved_at/resolved_by panicked: {}", p.brief())),
         }
     }
+    // one crossing at a time, in a random order: resolved_at(i, r) addresses the i-th crossing that is still
+    // unresolved; after every step crossing_num drops by one, crossing_at(j) is unresolved, and at the end the
+    // diagram is the same crossingless diagram as resolved_by(state)
+    if bad.is_none() && n >= 2 && n <= 12 {
+        let order = rng.perm(n);
+        let state: Vec<bool> = (0..n).map(|_| rng.chance(1, 2)).collect();
+        let (pd4, order2, state2) = (pd.clone(), order.clone(), state.clone());
+        match guarded(move || {
+            let mut l = to_link(&pd4);
+            let mut remaining: Vec<usize> = (0..pd4.n()).collect(); // original indices of the unresolved crossings, in data order
+            let mut trace = vec![];
+            for &k in &order2 {
+                let i = remaining.iter().position(|&x| x == k).unwrap();
+                // what crossing_at(i) points at before the step
+                let at = *l.crossing_at(i).edges();
+                let was_resolved = l.crossing_at(i).is_resolved();
+                l = l.resolved_at(i, yui::bitseq::Bit::from(state2[k]));
+                remaining.remove(i);
+                trace.push((k, at, was_resolved, l.crossing_num()));
+            }
+            (trace, l.components().len(), l.components().iter().all(|c| c.is_circle()))
+        }) {
+            Ok((trace, circles, all_circ)) => {
+                for (step, (k, at, was_resolved, cn)) in trace.iter().enumerate() {
+                    if *at != pd.x[*k] || *was_resolved { fail!("resolved_at-chain", format!("step {step} of the order {:?}: crossing_at(i) for the i-th unresolved crossing (original index {k}) points at {:?}{}", order, at, if *was_resolved { " which is already resolved" } else { "" })); break }
+                    if *cn != n - step - 1 { fail!("resolved_at-chain", format!("after {} single resolutions crossing_num = {cn}", step + 1)); break }
+                }
+                let exp = pd.n_circles(&state);
+                if bad.is_none() && (circles != exp || !all_circ) { fail!("resolved_at-chain", format!("resolving one crossing at a time in the order {:?} with state {:?} gives {circles} components, edge identification gives {exp} circles", order, state)) }
+            }
+            Err(p) => fail!("resolved_at-chain-panic", format!("a chain of resolved_at calls in the order {:?} panicked: {}", order, p.brief())),
+        }
+    }
     if let Some((k, msg)) = bad { ctx.violation(&format!("C18/{k}"), &msg, wit(json!({"lib_signs": signs, "lib_components": comps}))); return false }
     ctx.count("resolution_states_checked", states.len() as i64);
     ctx.ok(class, nt, hash_of(&(&pd.x, &pd.neg)));
